@@ -22,6 +22,10 @@ stays `≤ sectorCount`, so nothing wraps as long as `sectorCount + 64 < 2^32`
 (`sectorCount` is a `uint32`; stated as an assumption).  The mutex is held for
 the whole of every method, so each call is one atomic step.
 
+`Inv`/`abs` at the end of the file are the representation invariant and the abstraction to
+`Spec/AllocSpec.lean` used by `Properties/C15Alloc.lean` (`bitmap_meets_spec`: this very
+word-level model refines the spec for every device size; there is no intermediate layer).
+
 Core Lean only.
 -/
 namespace BbRe.Bitmap
